@@ -61,6 +61,20 @@ def f_duplicate_name(rng, d):
     sts = all_states(d)
     if len(sts) < 2:
         return False
+    if rng.random() < 0.4:
+        # an exact twin: a second state with the same name, kind, code and contract, next to the first one or elsewhere
+        import copy as _copy
+        leaves = [(s, p) for s, p in sts if p is not None and not s.get('states') and not s.get('parallel states')]
+        hosts = [s for s, _ in sts if s.get('states') or s.get('parallel states')]
+        if leaves and hosts:
+            b, bp = rng.choice(leaves)
+            host = bp if rng.random() < 0.6 else rng.choice(hosts)
+            key = 'states' if host.get('states') else 'parallel states'
+            twin = _copy.deepcopy(b)
+            if rng.random() < 0.5:
+                twin.pop('transitions', None)
+            host[key].insert(rng.randrange(len(host[key]) + 1), twin)
+            return True
     a, b = rng.sample(sts, 2)
     a[0]['name'] = b[0]['name']
     return True
